@@ -100,15 +100,17 @@ def run_driver_parallel(ctx, drv, journal, wd, nproc=14, extra_args=()):
     return verd, "summary " + " ".join("%s=%d" % kv for kv in sorted(tot.items()))
 
 
-def run_poly(ctx, ops, n_hist, length, maxdim, observe_always=False, batch=10):
+def run_poly(ctx, ops, n_hist, length, maxdim, observe_always=False, batch=10, bias=None, first=0, tag=""):
     drv = ctx.ensure_pplv("pplv_lin")
     h = ctx.compile_harness("c01_poly.cc")
     wd = ctx.workdir()
     jpath, vpath = os.path.join(wd, "journal.txt"), os.path.join(wd, "verdicts.txt")
-    cmd = [h, "--seed", str(ctx.seed), "--first", "0", "--last", str(n_hist), "--len", str(length),
+    cmd = [h, "--seed", str(ctx.seed), "--first", str(first), "--last", str(first + n_hist), "--len", str(length),
            "--maxdim", str(maxdim), "--ops", ops, "--batch", str(batch)]
     if observe_always:
         cmd += ["--observe-always", "1"]
+    if bias is not None:
+        cmd += ["--bias", str(bias)]
     rc, _, err = ctx.run(cmd, stdout_path=jpath, timeout=3000)
     if rc != 0:
         ctx.fatal("harness failed rc=%s %s" % (rc, err[-500:]))
@@ -153,8 +155,14 @@ def run_poly(ctx, ops, n_hist, length, maxdim, observe_always=False, batch=10):
                                "replay_cmd": "bin/check %s --replay <this file>" % ctx.pid,
                                "harness_args": cmd[1:]},
                               found_input=True, record={"site": site, "tags": tags})
+    prev = ctx.cov.get("_poly_parts", [])
+    prev.append({"tag": tag or ops, "histories": len(hists), "nontrivial": nontrivial, "decided": stats["ok"],
+                 "op_histogram": dict(opc)})
+    ctx.cov["_poly_parts"] = prev
+    tot_h = sum(p["histories"] for p in prev); tot_n = sum(p["nontrivial"] for p in prev)
+    ctx.cov["parts"] = prev
     ctx.cov.update({
-        "evaluations": len(hists), "distinct_nontrivial": nontrivial,
+        "evaluations": tot_h, "distinct_nontrivial": tot_n,
         "rule": "seeded histories over a pool of 4 C/NNC polyhedra (dim<=%d, len %d, ops=%s); distinct by hash of the op/observation text; "
                 "non-trivial = at least one mutator, a non-empty non-universe constraint observation and >=2 distinct lazy-status lines" % (maxdim, length, ops),
         "samples": samples, "traces_validated_against_impl": len(hists),
